@@ -76,6 +76,34 @@ def decoder_roles(rep, rule, c, subject_text):
                             "subordinates are stored in the order they were added, so strobes reach the wrong subordinate when "
                             "windows are added out of address order")
                     return None
+        # named wrong shape: the select condition is computed from the *reported extent* of each window (windows(): start, stop).
+        # add_window() rounds a window's span up to the map's alignment, so stop - start can exceed 2**window.addr_width: the
+        # padding then selects the subordinate (and aliases its registers through the truncated address) although the memory
+        # map decodes those addresses to nothing.  window_patterns() is built from window.addr_width and does not have that
+        # problem; neither does a comparison above window.addr_width bits.
+        WW = c.parse("self.bus.memory_map.windows()")
+        wl = [L for L in c.t.loops.values() if unlist(c.norm(L.iter)) == WW or (L.seq is not None and unlist(c.norm(L.seq)) == WW)]
+        if len(wl) == 1 and not loops:
+            Lw = wl[0]
+            stop = ('item', Lw.id, (2, 1))
+            uses = []
+            for d in c.t.drivers:
+                exprs = [c.norm(d.value)] + [c.norm(fr[1]) for fr in d.dsl if fr[0] in ('if', 'elif')]
+                if any(x == stop for e in exprs for x in ir.walk(e)):
+                    uses.append(d)
+            # one level through local select wires
+            wires = {ir.show(c.norm(d.target)) for d in uses if c.norm(d.target)[0] == 'sig'}
+            strobes = [d for d in c.t.drivers if ('for', Lw.id) in d.gen and
+                       (d in uses or any(ir.show(x) in wires for e in [c.norm(d.value)] + [c.norm(fr[1]) for fr in d.dsl if fr[0] in ('if', 'elif')]
+                                         for x in ir.walk(e)))
+                       and c.norm(d.target)[0] == 'attr' and c.norm(d.target)[2] in ('r_stb', 'w_stb', 'cyc', 'stb')]
+            if strobes:
+                rep.bad(rule, site, "subordinate selected by the reported extent of its window",
+                        "the select condition is computed from the (start, stop) range that windows() reports; add_window() rounds that "
+                        "range up to the map's alignment, so for a subordinate narrower than the alignment the padding addresses select it "
+                        "(and alias its registers through the truncated address) although the memory map decodes them to nothing -- the "
+                        "patterns of window_patterns() cover 2**window.addr_width addresses only", lines=sorted({d.lineno for d in strobes}))
+                return None
         rep.unk(rule, site, "loop over self.bus.memory_map.window_patterns()",
                 f"found {len(loops)} such loops: the decoder must decode with the patterns of the map it publishes")
         return None
